@@ -202,6 +202,15 @@ class Atom(Value):
             return CanAssignError("atom rejected")
         return super().can_assign(other, ctx)
 
+    def can_overlap(self, other, ctx, mode):
+        # leaf classes that the preorder does not relate are disjoint (like int and str): no object is
+        # an instance of both.  Related atoms overlap.
+        if isinstance(other, Atom):
+            if self.rel.accepts(self.i, other.i) or self.rel.accepts(other.i, self.i):
+                return None
+            return CanAssignError("disjoint atoms")
+        return super().can_overlap(other, ctx, mode)
+
     def substitute_typevars(self, typevars):
         return self
 
